@@ -28,7 +28,10 @@ Shared state = the files of ONE service name at the granularity the code disting
     ProcessCleaner::new) before and `node:remove` (port-tag listing, remove_node, drop or abandon of the cleaner) after the
     service-level steps, `node:list-tags` is the listing of the service tags (tags with creation permission are invisible).
   * `svcDir`: the `services` directory (shared infrastructure like `nodes`, never removed, not a leftover).
-  * `root`: the survivors run with uid 0 (`open` of a 0200 shm object succeeds; the sandbox) or as an ordinary user (EACCES).
+The survivors run with uid 0 (the sandbox): `open` of a 0200 shm object succeeds and the decision is taken by `fstat`.  An ordinary
+user gets EACCES from that `open` and reaches the same `InitializationNotYetFinalized` ⇒ `Ok(None)` branch one or three system
+calls earlier (by reading posix_shared_memory.rs open_impl); since fix 150ae1b (a zero-sized object honours the timeout like the
+other not-yet-finalised cases) both regimes have the same outcomes, so the model has no uid parameter any more.
 
 Steps named `mem:…` are stores into the mapping (no system call); `node:…` are the atomic node-level abstractions.
 Processes are threads of `Iox2.Sched.Sys`, wrapped with `Sys.withCrash` (`csys`): any fuse = death before any step.
@@ -76,7 +79,6 @@ structure Shared where
   tag1 : TagSt := .absent
   node : Node := {}
   svcDir : Bool := false
-  root : Bool := true
 deriving Repr, DecidableEq, Inhabited
 
 def Shared.dyn (sh : Shared) : Nat → Dyn
@@ -193,12 +195,11 @@ def cleanerStep (sh : Shared) (t : Th) : Option (Shared × Th × String) :=
   | 4 => if sh.static = .locked then some (sh, { t with pc := 15 }, "fstat static") else some (sh, { t with pc := 5 }, "fstat static")
   | 5 => some (sh, { t with pc := 6, seen := sh.inc }, "read static")
   -- open_dynamic_config: shm_open(O_RDWR) — ENOENT ⇒ DoesNotExist ⇒ Ok(None) ⇒ "corrupted service": removed completely.
-  -- A 0200 object: an ordinary user gets EACCES ⇒ (timeout 0) InitializationNotYetFinalized ⇒ Ok(None); uid 0 opens it.
-  | 6 => if d.st = .absent then some (sh, { t with pc := 10 }, "open dyn")
-         else if d.st ≠ .final ∧ !sh.root then some (sh, { t with pc := 10 }, "open dyn")
-         else some (sh, { t with pc := 7 }, "open dyn")
-  -- fstat: size 0 ⇒ MappingSizeIsZero ⇒ wait 1 ms and retry, WITHOUT any timeout check (posix_shared_memory.rs:251-253)
-  | 7 => if d.st = .created then some (sh, { t with pc := 6 }, "fstat dyn") else some (sh, { t with pc := 8 }, "fstat dyn")
+  -- uid 0 opens a 0200 object (an ordinary user: EACCES ⇒ with timeout 0 InitializationNotYetFinalized at once, the same branch).
+  | 6 => if d.st = .absent then some (sh, { t with pc := 10 }, "open dyn") else some (sh, { t with pc := 7 }, "open dyn")
+  -- fstat: size 0 ⇒ MappingSizeIsZero ⇒ elapsed ≥ timeout (0) ⇒ InitializationNotYetFinalized ⇒ Ok(None) (since fix 150ae1b; before it
+  -- this arm waited 1 ms and retried without any timeout check: the clean-up span for ever)
+  | 7 => if d.st = .created then some (sh, { t with pc := 10 }, "fstat dyn") else some (sh, { t with pc := 8 }, "fstat dyn")
   | 8 => some (sh, { t with pc := 9 }, "mmap dyn")
   -- permission: not readable ⇒ elapsed ≥ timeout (0) ⇒ InitializationNotYetFinalized ⇒ Ok(None)
   | 9 => if d.st = .final then some (sh, { t with pc := 30 }, "fstat dyn") else some (sh, { t with pc := 10 }, "fstat dyn")
@@ -280,7 +281,7 @@ def mkCreator (who : Nat) : Th := { role := .creator, who := who }
 def mkOpener : Th := { role := .opener, who := 0 }
 def mkCleaner (pid : Nat) : Th := { role := .cleaner, who := pid }
 
-/-- more steps than any program takes without spinning (creator: 20 + its death, cleaner: 16, opener: 24) -/
+/-- more steps than any program takes (creator: 20 + its death, cleaner: 16, opener: 23 + its death; no program loops) -/
 def fuel : Nat := 24
 
 /-- one process running alone -/
@@ -338,13 +339,13 @@ def Left.none : Left := { static := .absent, dyn := .absent, tag := .absent, nod
 
 /-- the whole experiment for one crash point of the creator:
 the victim (fuse = its crash point) runs alone until it is dead or has finished; survivor 1 runs the clean-up (it may itself
-carry a fuse: second crash); a cleaner that still spins after `fuel` steps is killed (the harness's time-out); survivor 2 runs a
-complete clean-up; (opener scenario: the living holder drops the service;) then the re-creator. -/
+carry a fuse: second crash); a cleaner that has neither finished nor died after `fuel` steps would be killed (the harness's
+time-out; no cleaner step loops any more since fix 150ae1b, so this never happens); survivor 2 runs a complete clean-up; (opener scenario: the living holder drops the service;) then the re-creator. -/
 structure Outcome where
   victim : Option SRes        -- result of the victim's call if it returned
   dead : Bool                 -- the victim died
   before : Left               -- after the victim stopped
-  clean1 : Option CRes        -- none: killed by its fuse, or spinning for ever
+  clean1 : Option CRes        -- none: killed by its fuse
   clean2 : Option CRes
   after : Left                -- after the survivors' clean-up attempts
   afterDrop : Left            -- after the living holder (opener scenario) dropped its service
@@ -354,7 +355,7 @@ deriving Repr, DecidableEq, Inhabited
 def scenario (sh0 : Shared) (victim : Th) (fuseV fuseC : Option Nat) (held : Bool := false) : Outcome :=
   let v := runC fuel sh0 { inner := victim, fuse := fuseV }
   let c1 := runC fuel v.1 { inner := mkCleaner 7, fuse := fuseC }
-  -- a cleaner that has neither finished nor died is spinning: the harness kills it
+  -- a cleaner that has neither finished nor died: the harness would kill it (unreachable, see above)
   let s1 := if c1.2.inner.cres.isNone && !c1.2.dead then onDeath c1.1 c1.2.inner else c1.1
   let c2 := runC fuel s1 { inner := mkCleaner 8 }
   let s2 := if c2.2.inner.cres.isNone then onDeath c2.1 c2.2.inner else c2.1
@@ -364,12 +365,12 @@ def scenario (sh0 : Shared) (victim : Th) (fuseV fuseC : Option Nat) (held : Boo
     after := leftOf s2, afterDrop := leftOf s3, recreate := r.2.inner.sres }
 
 /-- the creator scenario: fresh domain, victim = creator on node 0 -/
-def creatorScenario (root : Bool) (fuseV fuseC : Option Nat) : Outcome :=
-  scenario { root := root } (mkCreator 0) fuseV fuseC
+def creatorScenario (fuseV fuseC : Option Nat) : Outcome :=
+  scenario {} (mkCreator 0) fuseV fuseC
 
 /-- the opener scenario: a living holder's complete service; victim = opener on node 0; after the clean-up the holder drops the
 service in an orderly way, then the re-creator -/
-def openerScenario (root : Bool) (fuseV fuseC : Option Nat) : Outcome :=
-  scenario { heldService with root := root } mkOpener fuseV fuseC true
+def openerScenario (fuseV fuseC : Option Nat) : Outcome :=
+  scenario heldService mkOpener fuseV fuseC true
 
 end Iox2.ServiceCrash
